@@ -15,13 +15,14 @@ VARIABLES chain, outc, att,        \* configuration: Apps -> chain, Apps -> "Ok"
           k, j, pc,                \* position in att, position in the chain, "filter"|"handle"|"done"
           consulted,               \* Apps -> sequence of filter indices consulted, in order, over all attachments
           delivered,               \* Apps -> number of append calls
-          errs, handled            \* collected errors (sequence of appender ids), handler calls
-vars == <<chain, outc, att, k, j, pc, consulted, delivered, errs, handled>>
+          errs, handled,           \* collected errors (sequence of appender ids), handler calls
+          flushed                  \* Apps -> number of flush calls (Log::flush, beyond the listed property)
+vars == <<chain, outc, att, k, j, pc, consulted, delivered, errs, handled, flushed>>
 
 Init == /\ chain \in [Apps -> Chains] /\ outc \in [Apps -> {"Ok", "Err"}] /\ att \in AttLists
         /\ k = 1 /\ j = 1 /\ pc = "filter"
         /\ consulted = [a \in Apps |-> <<>>] /\ delivered = [a \in Apps |-> 0]
-        /\ errs = <<>> /\ handled = 0
+        /\ errs = <<>> /\ handled = 0 /\ flushed = [a \in Apps |-> 0]
 Cur == att[k]
 NextAtt == k' = k + 1 /\ j' = 1
 \* Appender::append: `for filter in &self.filters { match filter.filter(record) {..} }`
@@ -32,21 +33,25 @@ FilterStep == /\ pc = "filter" /\ k <= Len(att) /\ j <= Len(chain[Cur])
                    [] chain[Cur][j] = "A" -> /\ NextAtt                                      \* break, then append
                                              /\ delivered' = [delivered EXCEPT ![Cur] = @ + 1]
                                              /\ errs' = IF outc[Cur] = "Err" THEN Append(errs, Cur) ELSE errs
-              /\ UNCHANGED <<chain, outc, att, pc, handled>>
+              /\ UNCHANGED <<chain, outc, att, pc, handled, flushed>>
 \* all filters neutral (or none): the appender is called
 AppendStep == /\ pc = "filter" /\ k <= Len(att) /\ j > Len(chain[Cur])
               /\ NextAtt
               /\ delivered' = [delivered EXCEPT ![Cur] = @ + 1]
               /\ errs' = IF outc[Cur] = "Err" THEN Append(errs, Cur) ELSE errs
-              /\ UNCHANGED <<chain, outc, att, pc, consulted, handled>>
+              /\ UNCHANGED <<chain, outc, att, pc, consulted, handled, flushed>>
 EndFanout == /\ pc = "filter" /\ k > Len(att) /\ pc' = "handle"
-             /\ UNCHANGED <<chain, outc, att, k, j, consulted, delivered, errs, handled>>
+             /\ UNCHANGED <<chain, outc, att, k, j, consulted, delivered, errs, handled, flushed>>
 \* `for e in errs { (shared.err_handler)(&e) }`
 HandleErr == /\ pc = "handle"
              /\ IF handled < Len(errs) THEN handled' = handled + 1 /\ pc' = pc
-                ELSE pc' = "done" /\ UNCHANGED handled
-             /\ UNCHANGED <<chain, outc, att, k, j, consulted, delivered, errs>>
-Next == FilterStep \/ AppendStep \/ EndFanout \/ HandleErr
+                ELSE pc' = "flush" /\ UNCHANGED handled
+             /\ UNCHANGED <<chain, outc, att, k, j, consulted, delivered, errs, flushed>>
+\* Log::flush on the logger: every appender of the configuration is flushed once - attached or not,
+\* however often it is attached, and whatever its filters say
+Flush == /\ pc = "flush" /\ flushed' = [a \in Apps |-> flushed[a] + 1] /\ pc' = "done"
+         /\ UNCHANGED <<chain, outc, att, k, j, consulted, delivered, errs, handled>>
+Next == FilterStep \/ AppendStep \/ EndFanout \/ HandleErr \/ Flush
 Spec == Init /\ [][Next]_vars
 
 \* ---------------------------------------------------------------- the property, per appender
@@ -69,6 +74,7 @@ ShortCircuit == Done => \A a \in Apps : consulted[a] = Rep(ConsultedOnce(chain[a
 HandlerOncePerError == Done => handled = Len(errs) /\
       \A a \in Apps : Cardinality({i \in 1..Len(errs) : errs[i] = a}) = (IF outc[a] = "Err" THEN delivered[a] ELSE 0)
 
+FlushOncePerAppender == Done => \A a \in Apps : flushed[a] = 1
 \* threshold filter: Reject exactly the records more verbose than its level
 Threshold(T, L) == IF L > T THEN "R" ELSE "N"
 =============================================================================
